@@ -572,6 +572,7 @@ def wrapped_kind_test(check: Check, repo: Repo, mods: list, rule: str = "WRAPPED
     )
     mt = MTypes.get(repo)
     n = 0
+    n_list = [0]
     for mod in mods:
         for fn in mod.functions():
             for c in walk_body(fn):
@@ -581,6 +582,19 @@ def wrapped_kind_test(check: Check, repo: Repo, mods: list, rule: str = "WRAPPED
                 ty = mt.type_of(c.args[0])
                 heads = top_heads(ty) if ty else set()
                 if not any(h.endswith("GraphQLNonNull") for h in heads):
+                    # list clause: the value lost only its non-null wrapper (get_nullable_type) and may still be `[T]`; a single
+                    # value written in a list position is coerced as a one-element list, so the position still is a T position
+                    prod = [x for x in walk_body(fn) if isinstance(x, ast.Call) and x.lineno <= c.lineno and call_name(x) in ("get_nullable_type", "assert_nullable_type")
+                            and isinstance(parent(x), ast.Assign) and any(unparse(t) == var for t in parent(x).targets)]
+                    if prod and any(h.endswith("GraphQLList") for h in heads):
+                        n_list[0] += 1
+                        tested = [x for x in walk_body(fn) if isinstance(x, ast.Call) and x.lineno <= c.lineno and x.args and unparse(x.args[0]) == var
+                                  and call_name(x) in ("is_list_type", "is_wrapping_type", "is_named_type")]
+                        check.ob(rule, c, f"{qualname_of(c)}: {unparse(c)} (list wrapper)", bool(tested),
+                                 f"`{var}` was tested for the list wrapper before: {unparse(tested[0])}" if tested else
+                                 f"`{var}` had only its non-null wrapper removed ({unparse(prod[0])}) and may still be a GraphQLList: a single value "
+                                 "written where a list is expected is coerced as one item, so `arg: [OneOfInput!]` given `{a: $v}` is a OneOf "
+                                 "position that this test skips - use get_named_type or test is_list_type first")
                     continue
                 n += 1
                 earlier = [
